@@ -13,7 +13,11 @@ PDFPage.label of PDFPage.create_pages equal the labels of the 12.4.2 model;
 PDFDocument.get_outlines() equals the pre-order list (level, title, Dest, A, SE)
 of the 12.3.3 model with top level = 1 (docs/howto/toc_target_page.rst);
 PDFDocument.get_dest(key) returns the value stored for every present key and
-raises PDFDestinationNotFound for absent keys below / between / above Limits.
+raises PDFDestinationNotFound for absent keys below / between / above Limits;
+tools/dumppdf.py dumpoutline (dumppdf -T) lists every outline item in document
+order with the level, the title and the page number the 12.3.2 model gives for
+its destination (explicit array, indirect array, name / string resolving to an
+array or to a dictionary with a direct or indirect /D, or a go-to action).
 Expected values come from the generator's ground truth; the reference tree
 validator / flatten / Limits-lookup of vf.ref.c17ref must agree with it first.
 """
@@ -21,7 +25,11 @@ from __future__ import annotations
 
 import io
 import itertools
+import os
 import random
+import re
+import shutil
+import tempfile
 from typing import Any, Dict, List, Optional, Tuple
 
 from vf.common import StepBudgetExceeded, chash, last_steps, run_with_budget
@@ -61,6 +69,11 @@ ASSUMPTIONS = [
     "name-tree keys are ordered as unsigned bytes (the usual reading of 'sorted lexically')",
     "nesting level of a top-level outline item is 1 (pdfminer's documented convention)",
     "sys.monitoring LINE events count executed pdfminer lines faithfully (chain/deep families only)",
+    "tools/dumppdf.py dumpoutline (dumppdf -T) is driven in-process from VERIF_REPO/tools; its output is read with the "
+    "inverse of its own &#N; escaping. An item whose /A is an INDIRECT reference to the action dictionary is compared like a direct one (the tool "
+    "ignored such actions until the repair fa229de). Left out because the tool does not support it: the page number of an item "
+    "whose named destination is the empty string (falsy, skipped by the tool); level and title of "
+    "those items are still compared. Documents of the chain family (>=1000 siblings) are not run through the tool",
 ]
 SHARD_TIMEOUT = {"quick": 600, "thorough": 3600}
 
@@ -272,10 +285,96 @@ def check_case(case: Dict[str, Any]) -> Tuple[List[Tuple[str, str]], Dict[str, i
             if k not in seen_keys:
                 seen_keys.add(k)
                 fails.append((k, "get_dest(%r) = %r, expected %r" % (key, gotv, exp)))
+    if exp_out is not None and case.get("outline_pages") is not None and case["fam"] != "chain":
+        f2, o2 = check_dumpoutline(case)
+        fails.extend(f2)
+        obs.update(o2)
     if budget:
         obs["budgeted_docs"] = 1
         obs["max_steps"] = maxsteps
         obs["budget"] = budget
+    return fails, obs
+
+
+_DUMPPDF: Dict[str, Any] = {}
+
+
+def _dumppdf_module():
+    """tools/dumppdf.py of the tree under test (VERIF_REPO), loaded by path under a private name."""
+    m = _DUMPPDF.get("m")
+    if m is None:
+        import importlib.util
+
+        from vf import REPO
+
+        spec = importlib.util.spec_from_file_location("vf_c17_dumppdf", os.path.join(REPO, "tools", "dumppdf.py"))
+        m = importlib.util.module_from_spec(spec)
+        spec.loader.exec_module(m)
+        _DUMPPDF["m"] = m
+    return m
+
+
+_OUTLINE_RE = re.compile(r'<outline level="(\d+)" title="([^"]*)">\n(.*?)</outline>\n', re.S)
+_PAGENO_RE = re.compile(r"<pageno>(\d+)</pageno>")
+_CHARREF_RE = re.compile(r"&#(\d+);")
+
+
+def check_dumpoutline(case: Dict[str, Any]) -> Tuple[List[Tuple[str, str]], Dict[str, int]]:
+    """tools/dumppdf.py -T (dumpoutline): level, title and page number of every outline item, in document order."""
+    exp_out, exp_pages = case["outlines"], case["outline_pages"]
+    fails: List[Tuple[str, str]] = []
+    obs: Dict[str, int] = {}
+    try:
+        mod = _dumppdf_module()
+    except Exception as e:  # noqa: BLE001
+        return [("dumpoutline:import:%s" % type(e).__name__, repr(e))], obs
+    tmpdir = tempfile.mkdtemp(prefix="vf-c17-")
+    out = io.StringIO()
+    err: Optional[BaseException] = None
+    try:
+        path = os.path.join(tmpdir, "doc.pdf")
+        with open(path, "wb") as f:
+            f.write(case["pdf"])
+        try:
+            mod.dumpoutline(out, path, [], set())
+        except Exception as e:  # noqa: BLE001
+            err = e
+    finally:
+        shutil.rmtree(tmpdir, ignore_errors=True)
+    items = _OUTLINE_RE.findall(out.getvalue())
+    if err is not None:
+        n = len(items)
+        how = exp_pages[n][1] if n < len(exp_pages) else "?"
+        fails.append(("dumpoutline:exception:%s:%s" % (type(err).__name__, how.split(":")[-1] if how.startswith("action") else how),
+                      "dumpoutline raised %r after listing %d of %d items; the next item is %r, destination given as %s"
+                      % (err, n, len(exp_out), exp_out[n][:2] if n < len(exp_out) else None, how)))
+        return fails, obs
+    if len(items) != len(exp_out):
+        fails.append(("dumpoutline:count", "dumppdf -T listed %d items, the outline has %d" % (len(items), len(exp_out))))
+        return fails, obs
+    seen = set()
+    for i, ((lv, title, body), e, (pg, how)) in enumerate(zip(items, exp_out, exp_pages)):
+        title = _CHARREF_RE.sub(lambda m: chr(int(m.group(1))), title)
+        key = None
+        if int(lv) != e[0]:
+            key, d = "dumpoutline:level", "level %s, expected %d" % (lv, e[0])
+        elif title != e[1]:
+            key, d = "dumpoutline:title", "title %r, expected %r" % (title, e[1])
+        else:
+            obs["dumpoutline_items_compared"] = obs.get("dumpoutline_items_compared", 0) + 1
+            if how.endswith(":empty_string"):
+                obs["dumpoutline_pageno_not_compared"] = obs.get("dumpoutline_pageno_not_compared", 0) + 1
+                continue
+            m = _PAGENO_RE.search(body)
+            got = int(m.group(1)) if m else None
+            if got != pg:
+                key, d = "dumpoutline:pageno:" + how, "page number %r, expected %r (destination given as %s)" % (got, pg, how)
+            else:
+                obs["dumpoutline_pageno:" + how] = obs.get("dumpoutline_pageno:" + how, 0) + 1
+        if key is not None and key not in seen:
+            seen.add(key)
+            fails.append((key, "item %d of %d %r: %s" % (i, len(exp_out), e[:2], d)))
+    obs["dumpoutline_docs"] = 1
     return fails, obs
 
 
@@ -327,11 +426,18 @@ def minimums(tier: str) -> Dict[str, int]:
             "docs:alpha_gt26": 300, "docs:absent": 800, "max_siblings_bucket_>=1000": 4,
             "absent:tree_absent:gap_between_leaves": 15000, "absent:tree_absent:below_all": 5000,
             "absent:tree_absent:above_all": 5000, "feat:kids_unordered": 1500,
+            "dumpoutline_docs": 2500, "dumpoutline_items_compared": 70000,
+            "dumpoutline_pageno:explicit": 15000, "dumpoutline_pageno:explicit_indirect": 8000,
+            "dumpoutline_pageno:string>array": 1000, "dumpoutline_pageno:string>dict": 300,
+            "dumpoutline_pageno:string>dict>Dref": 300, "dumpoutline_pageno:string>ref>dict>Dref": 150,
+            "dumpoutline_pageno:name>dict>Dref": 300, "dumpoutline_pageno:name>ref>dict>Dref": 250,
+            "dumpoutline_pageno:action:explicit": 6000, "dumpoutline_pageno:action:string>dict>Dref": 30,
+            "dumpoutline_pageno:action:name>dict>Dref": 30, "dumpoutline_pageno:action_indirect:explicit": 5000,
             "trees_with_direct_kids:nt": 800, "trees_with_direct_kids:pl": 800, "feat:direct_kid_nodes": 8000}
     if tier != "quick":
         base = {k: v * 22 for k, v in base.items()}
     base.update({"seen:absent_classes": 8, "seen:label_styles": 6, "seen:pdfdoc_codes": 232, "seen:roman_values": 3999,
-                 "seen:target_kinds": 8, "seen:tree_modes": 5, "seen:direct_kid_trees": 20, "docs:enum_roman": 80, "docs:enum_alpha": 104,
+                 "seen:target_kinds": 8, "seen:tree_modes": 5, "seen:direct_kid_trees": 20, "seen:dumpoutline_dest_forms": 24, "docs:enum_roman": 80, "docs:enum_alpha": 104,
                  "text:enum_pdfdoc": 400, "text:enum_utf16": 441})
     return base
 
@@ -417,6 +523,9 @@ def _record(case: Dict[str, Any], rec) -> None:
             rec.count(k, v)
         elif k in ("max_steps", "budget"):
             pass
+        elif k.startswith("dumpoutline_pageno:"):
+            rec.count(k, v)
+            rec.see("dumpoutline_dest_forms", k[19:])
         else:
             rec.count(k, v)
     if "max_steps" in obs:
